@@ -14,7 +14,17 @@ fn corpus_files(corpus_dir: &str, max: usize) -> Vec<(String, String)> {
     ];
     let mut files: Vec<_> = std::fs::read_dir(corpus_dir).map(|rd| rd.filter_map(|e| e.ok()).map(|e| e.path()).collect()).unwrap_or_default();
     files.sort();
-    // spread over the corpus deterministically
+    // the hand-written files always, then a deterministic spread over the rest of the corpus
+    let hand: Vec<_> = files.iter().filter(|f| f.file_name().map(|n| n.to_string_lossy().starts_with("h_")).unwrap_or(false)).cloned().collect();
+    for f in hand.iter() {
+        if let Ok(s) = std::fs::read_to_string(f) {
+            if parses(&s) {
+                v.push((f.file_name().unwrap().to_string_lossy().to_string(), s));
+            }
+        }
+    }
+    let max = max + hand.len();
+    files.retain(|f| !hand.contains(f));
     let step = (files.len() / max.max(1)).max(1);
     for f in files.iter().step_by(step) {
         if v.len() >= max + 3 {
@@ -151,6 +161,23 @@ pub fn run(schedules_file: &str, corpus_dir: &str, max_files: usize, baseline_fi
             out.sample(rec.clone());
         }
         trace.push(&rec);
+    }
+    // the file number (position of the file in its directory) is not part of the verdict: every call once more as
+    // the 2nd and as the 10th file of a directory
+    for (name, text) in files.iter() {
+        let mut calls = vec![];
+        for d in dets.iter() {
+            if !base[name][d.name()].is_array() {
+                continue;
+            }
+            for fnum in [1usize, 9] {
+                let r = d.run_as(text, fnum);
+                calls.push(json!({"thread": 1, "seq": calls.len() + 1, "file": name, "pattern": d.name(), "file_number": fnum,
+                                  "result": match r { Ok(s) => json!(s), Err(_) => json!("panic") }}));
+            }
+        }
+        out.evaluations += 1;
+        trace.push(&json!({"k": "numbered", "threads": 1, "history": [], "calls": calls}));
     }
     // sequential orders: every detector before / after every other, same and different file, repeated
     let fa = &files[0];
